@@ -1,5 +1,39 @@
 import ShellOp.Drv.Worker
-/-! Line-protocol suite for C17: the shared worker suite (`Drv/Worker`). -/
+import ShellOp.Model.HookQueues
+/-! Line-protocol suite for C17: the shared worker suite (`Drv/Worker`) plus the lines of the
+whole-operator cases with cluster events (queue wiring, stop request heard, late cluster events). -/
 namespace ShellOp.Drv.C17
-def suite := ShellOp.Drv.Worker.suite
+open ShellOp ShellOp.Util ShellOp.HookQueues
+
+def step (st : Worker.St) (toks : List String) : Worker.St × String :=
+  match toks with
+  | "hookqueues" :: args =>
+    -- model of bootstrapMainQueue/StartMain/initAndStartHookQueues: which queues exist (all started),
+    -- which of them hear TaskQueueSet.Stop(); queue names of the bindings in hook order, 0 = main
+    match (kv? "sched" args).bind natList?, (kv? "kube" args).bind natList? with
+    | some sched, some kube =>
+      let s := operatorQueues [sched] [kube]
+      let names := sortedNames ((s.filter (·.started)).map (·.name))
+      let heard := sortedNames ((s.filter hearsStop).map (·.name))
+      (st, s!"queues={showNats names} heard={showNats heard}")
+    | _, _ => (st, "bad-op")
+  | "oracle" :: "stopheard" :: args =>
+    -- the stop request reached (the context of) main and every queue a binding names
+    match (kv? "want" args).bind natList?, (kv? "heard" args).bind natList? with
+    | some want, some heard =>
+      let bad := want.filter fun q => !(heard.contains q)
+      if bad.isEmpty then (st, "true")
+      else (st, s!"false the-stop-request-of-Shutdown-did-not-reach-queues-{showNats bad}")
+    | _, _ => (st, "bad-op")
+  | "oracle" :: "latecluster" :: args =>
+    -- no object created in the cluster after Shutdown() returned appears in any hook execution
+    match kv? "late" args, kv? "seen" args with
+    | some late, some seen =>
+      let bad := (strList late).filter fun o => (strList seen).contains o
+      if bad.isEmpty then (st, "true")
+      else (st, s!"false cluster-events-after-Shutdown-led-to-executions-for-objects-{showStrs bad}")
+    | _, _ => (st, "bad-op")
+  | _ => Worker.step st toks
+
+def suite : Suite Worker.St := { init := {}, step := step }
 end ShellOp.Drv.C17
